@@ -18,7 +18,7 @@ func NewC16c() *C16c { return &C16c{rw: sim.NewRaceWatcher()} }
 
 func (*C16c) ID() string { return "C16" }
 func (*C16c) Rule() string {
-	return "(c) whole scans of rapid-generated trees inside a synctest bubble, every file-system operation sleeping 100-1500 ms of simulated time so that the engine's 2 s status ticker fires during the walk; binary built with -race; a run is non-trivial when the simulated scan lasted longer than the 2 s reporting interval"
+	return "(c) whole scans of rapid-generated trees inside a synctest bubble, every file-system operation sleeping 100-1500 ms of simulated time so that the engine's 2 s status ticker fires during the walk; in 1 of 3 scenarios the context ends at a drawn seam event; binary built with -race; a run is non-trivial when the simulated scan lasted longer than the 2 s reporting interval"
 }
 
 func (*C16c) Gen(rt *rapid.T, tier string) any {
@@ -30,6 +30,12 @@ func (*C16c) Gen(rt *rapid.T, tier string) any {
 	cfg.Extractors = genExtractors(rt, 3, false)
 	cfg.UseGitignore = rapid.Bool().Draw(rt, "usegitignore")
 	cfg.Disk = DiskPlan{Chunk: rapid.SampledFrom([]int{0, 7}).Draw(rt, "chunk"), LatencyMs: rapid.IntRange(100, 1500).Draw(rt, "latency_ms")}
+	if rapid.IntRange(0, 2).Draw(rt, "cancel") == 2 {
+		// the scan's context ends (cancelled or as an expired deadline) at some seam event while the
+		// status goroutine is alive
+		cfg.CancelAt = rapid.IntRange(0, 60).Draw(rt, "cancel_at")
+		cfg.CancelDeadline = rapid.Bool().Draw(rt, "cancel_deadline")
+	}
 	return cfg
 }
 
